@@ -1,8 +1,8 @@
 (* C07 - effect skeletons of the read-only / copying API on the forest heap model (Heap/Forest.v).
 
    What is modelled here is *which heap cells a call allocates and writes*, as a sequence of heap
-   primitives: `deep_copy` (copy.deepcopy / BaseNode.copy, basenode.py:730-741), `shallow_copy`
-   (BaseNode.__copy__, basenode.py:784-798), `alloc` (node_type(kwargs)), and the structural
+   primitives: `deep_copy` (copy.deepcopy / BaseNode.copy, basenode.py:732-743), `shallow_copy`
+   (BaseNode.__copy__, basenode.py:786-800), `alloc` (node_type(kwargs)), and the structural
    operations `step` of Forest.v (x.parent = ..., del x.children).  What a call *reads* in order
    to decide its operands (path lookups, depth levels, the shape of a diff) is either computed
    from the state or a parameter of the skeleton; the frame theorems of EffectsProofs.v hold for
@@ -270,7 +270,7 @@ Definition mutate_obj (h : eheap) (a c' : nat) : eheap :=
      (kl h) (vsz h).
 
 (* ------------------------------------------------------------------------------------------ *)
-(* DAGNode (bigtree/node/dagnode.py:573-600), on the DAG heap model of Heap/Dag.v (its names are
+(* DAGNode (bigtree/node/dagnode.py:575-602), on the DAG heap model of Heap/Dag.v (its names are
    used qualified: both heap models define set_children, alloc, ...) *)
 From BT Require Heap.Dag.
 
@@ -304,7 +304,7 @@ Definition dshallow_copy (s : Dag.dag) (x : id) : Dag.dag * id :=
              (upd (Dag.dname s) n (Dag.dname s x)), n).
 
 Definition dsk_copy (s : Dag.dag) (start : id) : Dag.dag * id := (ddeep_copy s start, dphi s start start).
-(* dag_to_dict (dag/export.py:85) and dag_to_dataframe (:158) start with dag = dag.copy() *)
+(* dag_to_dict (dag/export.py:85) and dag_to_dataframe (:155) start with dag = dag.copy() *)
 Definition dsk_export (s : Dag.dag) (start : id) : Dag.dag := ddeep_copy s start.
 (* dag_iterator, dag_to_list, dag_to_dot, ancestors / descendants / siblings / go_to: readers *)
 Definition dsk_reader (s : Dag.dag) : Dag.dag := s.
